@@ -81,4 +81,8 @@ OracleLaws ==
 Emit == Complete =>
     /\ PrintT(ToJson([e |-> tree]))
     /\ (FlattenOnModel(tree) = "OK" \/ PrintT(ToJson([design |-> FlattenOnModel(tree), de |-> tree])))
+    /\ (FoldOnModel(tree, FALSE) \in {"OK", "SKIP"}
+        \/ PrintT(ToJson([design |-> "fold: " \o FoldOnModel(tree, FALSE), de |-> tree])))
+    /\ (FoldOnModel(tree, TRUE) \in {"OK", "SKIP"}
+        \/ PrintT(ToJson([design |-> "cfold: " \o FoldOnModel(tree, TRUE), de |-> tree])))
 =============================================================================
